@@ -165,11 +165,29 @@ def analyse(src):
     return res, {'flushSetsImmediate': flush_sets, 'm2mOnlyFromFlush': via_flush, 'execSqlOrder': order}, info
 
 
+def begin_order(sqlite_src):
+    """SQLiteProvider.set_transaction_mode: inside `if cache.immediate:` the BEGIN is executed BEFORE `cache.in_transaction = True`
+    (a refused BEGIN must leave the flag False: the emitter's `prep` sets inTx only after a successful BEGIN)"""
+    tree = ast.parse(sqlite_src)
+    f = find_func(tree, 'SQLiteProvider', 'set_transaction_mode')
+    if f is None: return False, 'SQLiteProvider.set_transaction_mode not found'
+    for node in ast.walk(f):
+        if isinstance(node, ast.If) and ast.unparse(node.test) == 'cache.immediate':
+            order = []
+            for b in node.body:
+                if ast.unparse(b) == "sql = 'BEGIN IMMEDIATE TRANSACTION'": order.append('sql')
+                elif isinstance(b, ast.Expr) and ast.unparse(b) == 'cursor.execute(sql)': order.append('execute')
+                elif ast.unparse(b) == 'cache.in_transaction = True': order.append('flag')
+            if 'sql' in order:
+                return order == ['sql', 'execute', 'flag'], 'set_transaction_mode line %d: order %s' % (node.lineno, order)
+    return False, 'no `if cache.immediate:` block with the BEGIN found'
+
+
 def render(res, flags, info):
     b = lambda v: 'true' if v else 'false'
     lines = ['/- GENERATED by harness/gen_txnentry.py from pony/orm/core.py -- do not edit.',
              '   "opens a transaction first" obligations of the write entry points, re-derived from the source by AST analysis.']
-    for k in [e[0] for e in ENTRIES] + ['flushSetsImmediate', 'm2mOnlyFromFlush', 'execSqlOrder', 'rawForwards']:
+    for k in [e[0] for e in ENTRIES] + ['flushSetsImmediate', 'm2mOnlyFromFlush', 'execSqlOrder', 'rawForwards', 'beginBeforeInTransaction']:
         lines.append('   %s: %s' % (k, info.get(k, '')))
     lines += ['-/', 'import PonyVerif.Model.TxnEmit', 'namespace PonyVerif.Gen.TxnEntry', 'open PonyVerif.Model.TxnEmit', '',
               '/-- every `_exec_sql` call of the entry point asks for a transaction (start_transaction=True, or an unconditional',
@@ -182,6 +200,8 @@ def render(res, flags, info):
               'def m2mOnlyFromFlush : Bool := %s' % b(flags['m2mOnlyFromFlush']), '',
               '/-- `_exec_sql` runs `if start_transaction: cache.immediate = True` before `prepare_connection_for_query_execution` -/',
               'def execSqlOrder : Bool := %s' % b(flags['execSqlOrder']), '',
+              '/-- sqlite `set_transaction_mode` executes BEGIN IMMEDIATE before it sets `cache.in_transaction = True` -/',
+              'def beginBeforeInTransaction : Bool := %s' % b(flags.get('beginBeforeInTransaction', False)), '',
               'end PonyVerif.Gen.TxnEntry', '']
     return '\n'.join(lines)
 
@@ -191,6 +211,7 @@ def regenerate(repo, lean_dir):
     out = os.path.join(lean_dir, 'PonyVerif', 'Gen', 'TxnEntry.lean')
     try:
         res, flags, info = analyse(open(path).read())
+        flags['beginBeforeInTransaction'], info['beginBeforeInTransaction'] = begin_order(open(os.path.join(repo, 'pony', 'orm', 'dbproviders', 'sqlite.py')).read())
         text = render(res, flags, info)
         old = open(out).read() if os.path.exists(out) else None
         changed = old != text
@@ -205,5 +226,7 @@ def regenerate(repo, lean_dir):
 
 if __name__ == '__main__':
     import json, sys
-    res, flags, info = analyse(open(os.path.join(sys.argv[1] if len(sys.argv) > 1 else '/repo', 'pony/orm/core.py')).read())
+    root = sys.argv[1] if len(sys.argv) > 1 else '/repo'
+    res, flags, info = analyse(open(os.path.join(root, 'pony/orm/core.py')).read())
+    flags['beginBeforeInTransaction'], info['beginBeforeInTransaction'] = begin_order(open(os.path.join(root, 'pony/orm/dbproviders/sqlite.py')).read())
     print(json.dumps({'opens': res, 'flags': flags, 'info': info}, indent=1))
